@@ -1150,3 +1150,39 @@ Theorem consistent_all c h :
   wf_cfg c ->
   ChainDurable c (run c h) /\ (forall v, vol_of (run c h) = Some v -> ChainValid c (run c h)).
 Proof. intros Hwf. split; [apply chain_durable_all, Hwf|apply chain_valid_running, Hwf]. Qed.
+
+(* ================================================================================================ *)
+(* 7. what the node's store serves, at every instant, at every height (C01)                         *)
+(* ================================================================================================ *)
+
+Lemma signed_by_served c b : signed_by c b -> validate_basic (b_sh b) = true -> served_signed c b.
+Proof.
+  intros (A & B & C) Hv. unfold served_signed. rewrite A, C. splits; try assumption; try reflexivity.
+  cbn [verify_header]. rewrite N.eqb_refl, header_eqb_refl. reflexivity.
+Qed.
+
+(* After every crash-free history (every instant between two actions of a run is the end of such a history):
+   every committed height serves a block of that height that is signed by the configured signer; the only
+   record above the committed heights is the pending block at height+1, which validates once it is signed;
+   nothing is served above it. *)
+Theorem served_crash_free c h :
+  wf_cfg c -> crash_free h = true ->
+  let st := run c h in let H := g_height (img_of st) in
+  (forall n, c_initial c <= n -> n <= H ->
+     exists b, served st n = Some b /\ h_height (hdr_of b) = n /\ served_signed c b) /\
+  (forall v b, vol_of st = Some v -> served st (H + 1) = Some b ->
+     validate (v_state v) (b_sh (final_block c b)) (b_data (final_block c b)) = true) /\
+  (forall n, H + 1 < n -> c_initial c < n -> served st n = None).
+Proof.
+  intros Hwf Hc st H. subst st H. splits.
+  - intros n Hn1 Hn2.
+    destruct (blocks_valid_crash_free c h Hwf Hc n Hn1 Hn2) as (r0 & s & _ & _ & _ & (b & Hb & Hh & _ & _ & _ & _ & _ & Hsg & _ & Hvb & _)).
+    exists b. split; [exact Hb|]. split; [exact Hh|]. apply signed_by_served; assumption.
+  - intros v b Hv Hb. pose proof (reach_inv c h Hwf) as (_ & HR). specialize (HR v Hv).
+    destruct HR as (_ & Hp & _). specialize (Hp b Hb). destruct Hp as (_ & _ & _ & Hl). exact Hl.
+  - intros n Hn1 Hn2. destruct (inv_run c Hwf h fresh (inv_fresh c)) as ((HD & _) & _ & Hs).
+    specialize (Hs Hc (synced_fresh)). fold (run c h) in HD, Hs. unfold served. unfold DInv in HD.
+    destruct (g_state (img_of (run c h))) as [s|] eqn:Es.
+    + destruct HD as (_ & _ & _ & _ & _ & Hnone). apply Hnone. rewrite <- (Hs s Es). exact Hn1.
+    + destruct HD as (_ & Hnone). apply Hnone, Hn2.
+Qed.
